@@ -135,9 +135,9 @@ func c15Limbs(c *Ctx) {
 					bad = true
 					continue
 				}
-				id := R.Mul(V).Add(r).Sub(C)
+				id := R.Mul(V).Add(r).Sub(C).ZeroVars(s.zero)
 				ok1 := id.IsZero()
-				ok2 := li.knownLess(r, V, s)
+				ok2 := li.knownLess(r, V, s) || li.knownLess(r.ZeroVars(s.zero), V.ZeroVars(s.zero), s)
 				ok3 := len(s.pre) == 0
 				detail := "c = q*v + r holds as a polynomial identity, r is a remainder of divisor v, every Div64 high word is below its divisor"
 				if !ok1 {
